@@ -206,11 +206,15 @@ def register(PROPS):
         return go == m, go == s
 
     def hist_c19_all(case, go):
+        if case.startswith(("FINITE ", "VALID ")):
+            n = sum(int(o.split(":")[2]) for o in case.split(" ")[-1].split(";") if o.startswith("N:"))
+            return ["op:LONG", "long:" + ("<2049" if n < 2049 else "<4097" if n < 4097 else "<65537" if n < 65537 else "65537+")]
         return ["op:JOE"] if case.startswith("JOE ") else hist_c19(case, go)
 
     PROPS["C19"] = {
         "gens": [{"id": "C19", "quick": 15000, "thorough": 500000, "thorough_seeds": 12},
-                 {"id": "C17", "quick": 1200, "thorough": 30000, "thorough_seeds": 6}],
+                 {"id": "C17", "quick": 1200, "thorough": 30000, "thorough_seeds": 6},
+                 {"id": "C19L", "quick": 8, "thorough": 60, "thorough_seeds": 6}],
         "compare": cmp_c19,
         "on_crash": "correspondence",
         "replay_repeats": 50,
@@ -219,7 +223,9 @@ def register(PROPS):
                 "Clone, Put of the same message 1-3 times through Finite/Valid replayers with automatic and required IDs) "
                 "on a growing family; String() of every member after every op; non-trivial = at least two members; plus Joe "
                 "scenarios (faulty, Finite and Valid replayers, ID-mode-violating publishes): every published message is "
-                "compared with its state before Publish",
+                "compared with its state before Publish; plus long histories (op N: ONE message put 257..8232 times, thorough "
+                "up to 65576, through a Finite/ValidReplayer with automatic IDs): every publication's ID, the caller's message "
+                "afterwards, replays aimed at the end",
         "hist": hist_c19_all,
         "assumptions": ["append's growth policy is arbitrary (any capacity >= needed): the theorems quantify over it, "
                         "the model run uses one fixed policy",
